@@ -118,12 +118,12 @@ P_NoTimeToDate(c) == \A i \in {3, 4} : (c.T = "date" /\ c.fx.hastime) => ~c.out[
 P_NoExtra(c) == \A i \in {3, 4} : c.fx.extra => ~c.out[i].ok                 \* extra tuple items / unknown keys
 \* (3) no_explicit_cast converts only within a primitive group, apart from the documented exceptions
 Groups(x) == (IF x.k = "none" THEN {"null"} ELSE {}) \cup
-             (IF x.k = "bool" \/ (x.k = "int" /\ x.n \in {0, 1}) THEN {"boolean"} ELSE {}) \cup
+             (IF x.k = "bool" \/ (Numeric(x) /\ (x.n = 0 \/ x.n = x.d)) THEN {"boolean"} ELSE {}) \cup     \* "0, 1, True, False"
              (IF Numeric(x) \/ x.k \in {"intx", "floatx", "decx", "complex"} THEN {"number"} ELSE {}) \cup
              (IF x.k \in {"str", "bytes"} THEN {"string"} ELSE {}) \cup
              (IF x.k \in {"list", "tuple", "set", "fset", "deque"} THEN {"array"} ELSE {}) \cup
              (IF x.k \in {"dict", "inst", "mapping"} THEN {"object"} ELSE {})
-DocumentedException(c) == (c.T = "Decimal" /\ c.x.k = "str")
-                          \/ (c.T \in {"date", "datetime", "time", "timedelta"} /\ (c.x.k \in {"str"} \/ Numeric(c.x) \/ c.x.k \in {"date", "datetime", "time", "timedelta"}))
+DocumentedException(c) == (c.T = "Decimal" /\ c.x.k \in {"str", "bytes"})
+                          \/ (c.T \in {"date", "datetime", "time", "timedelta"} /\ (c.x.k \in {"str", "bytes"} \/ Numeric(c.x) \/ c.x.k \in {"date", "datetime", "time", "timedelta"}))
 P_Group(c) == \A i \in {2, 4} : (c.out[i].ok /\ c.tgroup # "") => c.tgroup \in Groups(c.x) \/ DocumentedException(c)
 =============================================================================
